@@ -47,9 +47,13 @@ def decJsonb : Nat → Bytes → Res (JV × Bytes)
     | none => .err "InvalidEOF"
     | some (h, bs) =>
       if hdrType h = C.SCALAR_CONTAINER_TAG then
-        match readU32 bs with
-        | none => .err "InvalidEOF"
-        | some (e, bs) => decScalar fuel (jeType e) (jeLen e) bs
+        -- a scalar header is exactly 0x20000000 (JSON text starting with `"`, `-` or a digit
+        -- has the same type bits and must reach the text fallback)
+        if h ≠ C.SCALAR_CONTAINER_TAG then .err "InvalidJsonbHeader"
+        else
+          match readU32 bs with
+          | none => .err "InvalidEOF"
+          | some (e, bs) => decScalar fuel (jeType e) (jeLen e) bs
       else if hdrType h = C.ARRAY_CONTAINER_TAG then
         match readEntries (hdrLen h) bs with
         | none => .err "InvalidEOF"
